@@ -359,6 +359,357 @@ Definition bstep_wf (h : bstep) : bool :=
   | _ => true
   end.
 
+(* ======================================================================================================
+   Round 6: the .str methods that have pure list semantics, object stores with duplicates, feature-type lookup.
+   ====================================================================================================== *)
+
+(* ---- str methods on ASCII code points (Objects/unicodeobject.c, Objects/stringlib/{find,count,replace}.h) ---- *)
+Definition is_upper (c : byte) : bool := (N.leb 65 (Byte.to_N c) && N.leb (Byte.to_N c) 90)%N.
+Definition ascii_lower (c : byte) : byte :=
+  if is_upper c then match Byte.of_N (Byte.to_N c + 32) with Some b => b | None => c end else c.
+Definition ascii_swap (c : byte) : byte := if is_upper c then ascii_lower c else ascii_upper c.
+Definition py_lower (s : str) : str := map ascii_lower s.
+Definition py_swapcase (s : str) : str := map ascii_swap s.
+(* str.isupper: no lower-case character and at least one cased one; islower dually *)
+Definition py_isupper (s : str) : bool := forallb (fun c => negb (is_lower c)) s && existsb is_upper s.
+Definition py_islower (s : str) : bool := forallb (fun c => negb (is_upper c)) s && existsb is_lower s.
+
+(* ADJUST_INDICES(start, end, len) of unicodeobject.c; None = the defaults 0 / sys.maxsize of the wrappers *)
+Definition adj_start (len : Z) (a : option Z) : Z :=
+  match a with None => 0 | Some a => if a <? 0 then Z.max (a + len) 0 else a end.
+Definition adj_end (len : Z) (b : option Z) : Z :=
+  match b with None => len | Some b => if b >? len then len else if b <? 0 then Z.max (b + len) 0 else b end.
+(* the part s[start:end] a search method looks at, with its offset; None when end < start (nothing is ever found) *)
+Definition window (s : str) (a b : option Z) : option (Z * str) :=
+  let n := Z.of_nat (length s) in
+  let st := adj_start n a in let en := adj_end n b in
+  if en - st <? 0 then None else Some (st, firstn (Z.to_nat (en - st)) (skipn (Z.to_nat st) s)).
+
+Fixpoint prefixb (p w : str) : bool :=
+  match p, w with
+  | [], _ => true
+  | a :: p', b :: w' => byte_eqb a b && prefixb p' w'
+  | _ :: _, [] => false
+  end.
+(* leftmost / rightmost position at which sub starts *)
+Fixpoint find_in (sub w : str) : option nat :=
+  match w with
+  | [] => if prefixb sub [] then Some O else None
+  | _ :: r => if prefixb sub w then Some O else option_map S (find_in sub r)
+  end.
+Fixpoint rfind_in (sub w : str) : option nat :=
+  match w with
+  | [] => if prefixb sub [] then Some O else None
+  | _ :: r => match rfind_in sub r with
+              | Some i => Some (S i)
+              | None => if prefixb sub w then Some O else None
+              end
+  end.
+(* non-overlapping occurrences from the left; [skip] residues still belong to the occurrence just counted *)
+Fixpoint count_in (sub w : str) (skip : nat) : nat :=
+  match w with
+  | [] => O
+  | _ :: r => match skip with
+              | S k => count_in sub r k
+              | O => if prefixb sub w then S (count_in sub r (length sub - 1)) else count_in sub r O
+              end
+  end.
+Definition py_find (s sub : str) (a b : option Z) : Z :=
+  match window s a b with
+  | None => -1
+  | Some (st, w) => match find_in sub w with Some i => st + Z.of_nat i | None => -1 end
+  end.
+Definition py_rfind (s sub : str) (a b : option Z) : Z :=
+  match window s a b with
+  | None => -1
+  | Some (st, w) => match rfind_in sub w with Some i => st + Z.of_nat i | None => -1 end
+  end.
+(* index / rindex: ValueError instead of -1 *)
+Definition py_index (s sub : str) (a b : option Z) : res Z :=
+  let r := py_find s sub a b in if r <? 0 then Err ValueError else Ok r.
+Definition py_rindex (s sub : str) (a b : option Z) : res Z :=
+  let r := py_rfind s sub a b in if r <? 0 then Err ValueError else Ok r.
+Definition py_count (s sub : str) (a b : option Z) : Z :=
+  match window s a b with
+  | None => 0
+  | Some (_, w) => match sub with
+                   | [] => Z.of_nat (length w) + 1
+                   | _ => Z.of_nat (count_in sub w O)
+                   end
+  end.
+(* tailmatch *)
+Definition py_startswith (s p : str) (a b : option Z) : bool :=
+  match window s a b with None => false | Some (_, w) => prefixb p w end.
+Definition py_endswith (s p : str) (a b : option Z) : bool :=
+  match window s a b with None => false | Some (_, w) => prefixb (rev p) (rev w) end.
+
+(* replace(old, new, count): leftmost non-overlapping occurrences, at most count of them (count < 0: all) *)
+Fixpoint replace_in (old new w : str) (skip : nat) (lim : option nat) : str :=
+  match w with
+  | [] => []
+  | c :: r =>
+      match skip with
+      | S k => replace_in old new r k lim
+      | O => match lim with
+             | Some O => c :: r
+             | _ => if prefixb old (c :: r)
+                    then new ++ replace_in old new r (length old - 1) (option_map pred lim)
+                    else c :: replace_in old new r O lim
+             end
+      end
+  end.
+(* empty old: new is put before every character and at the end *)
+Fixpoint replace_empty (new w : str) (lim : option nat) : str :=
+  match lim with
+  | Some O => w
+  | _ => new ++ match w with [] => [] | c :: r => c :: replace_empty new r (option_map pred lim) end
+  end.
+Definition lim_of (cnt : option Z) : option nat :=
+  match cnt with None => None | Some z => if z <? 0 then None else Some (Z.to_nat z) end.
+Definition py_replace (s old new : str) (cnt : option Z) : str :=
+  match old with
+  | [] => replace_empty new s (lim_of cnt)
+  | _ => replace_in old new s O (lim_of cnt)
+  end.
+
+(* strip family; chars None = white space (ASCII part of Py_UNICODE_ISSPACE) *)
+Definition ws : str := [x09; x0a; x0b; x0c; x0d; x1c; x1d; x1e; x1f; x20].
+Definition strip_set (chars : option str) (c : byte) : bool :=
+  existsb (byte_eqb c) (match chars with None => ws | Some cs => cs end).
+Fixpoint dropwhile (f : byte -> bool) (s : str) : str :=
+  match s with [] => [] | c :: r => if f c then dropwhile f r else c :: r end.
+Definition py_lstrip (s : str) (chars : option str) : str := dropwhile (strip_set chars) s.
+Definition py_rstrip (s : str) (chars : option str) : str := rev (dropwhile (strip_set chars) (rev s)).
+Definition py_strip (s : str) (chars : option str) : str := py_rstrip (py_lstrip s chars) chars.
+
+(* ljust / rjust / center (unicode_center: left = marg/2 + (marg & width & 1)) *)
+Definition fill_of (f : option byte) : byte := match f with None => x20 | Some c => c end.
+Definition pad (left right : Z) (f : byte) (s : str) : str :=
+  repeat f (Z.to_nat left) ++ s ++ repeat f (Z.to_nat right).
+Definition py_ljust (s : str) (w : Z) (f : option byte) : str :=
+  let m := w - Z.of_nat (length s) in if m <=? 0 then s else pad 0 m (fill_of f) s.
+Definition py_rjust (s : str) (w : Z) (f : option byte) : str :=
+  let m := w - Z.of_nat (length s) in if m <=? 0 then s else pad m 0 (fill_of f) s.
+Definition py_center (s : str) (w : Z) (f : option byte) : str :=
+  let m := w - Z.of_nat (length s) in
+  if m <=? 0 then s else
+  let left := m / 2 + (if Z.odd m && Z.odd w then 1 else 0) in pad left (m - left) (fill_of f) s.
+
+(* ---- edits and queries of ONE sequence: the code path (seq_edit / seq_query) and the plain-str reading ---- *)
+Inductive edit :=
+| ESet (ix : index) (v : str)                 (* seq[ix] = v *)
+| EIadd (t : str)                             (* seq += t *)
+| EData (d : str)                             (* seq.data = d *)
+| EReverse                                    (* seq.reverse() *)
+| ETrans (m : list (byte * byte))             (* seq.str.translate(table) *)
+| ELower | EUpper | ESwapcase                 (* seq.str.lower() ... *)
+| EReplace (old new : str) (cnt : option Z)
+| ECenter (w : Z) (f : option byte) | ELjust (w : Z) (f : option byte) | ERjust (w : Z) (f : option byte)
+| EStrip (chars : option str) | ELstrip (chars : option str) | ERstrip (chars : option str).
+
+(* the str method behind a transforming .str wrapper *)
+Definition edit_method (e : edit) (d : str) : str :=
+  match e with
+  | ETrans m => trans_map d m
+  | ELower => py_lower d | EUpper => py_upper d | ESwapcase => py_swapcase d
+  | EReplace old new cnt => py_replace d old new cnt
+  | ECenter w f => py_center d w f | ELjust w f => py_ljust d w f | ERjust w f => py_rjust d w f
+  | EStrip cs => py_strip d cs | ELstrip cs => py_lstrip d cs | ERstrip cs => py_rstrip d cs
+  | _ => d
+  end.
+(* what the code does (seq.py:264-278, 36-175, 591-596) *)
+Definition seq_edit (e : edit) (s : bioseq) : res bioseq :=
+  match e with
+  | ESet ix v => seq_setitem s ix v
+  | EIadd t => Ok (seq_iadd s t)
+  | EData d => Ok (set_data s d)
+  | EReverse => Ok (seq_reverse s)
+  | _ => Ok (str_transform unit (fun d _ => edit_method e d) s tt)
+  end.
+(* the same edit on a plain Python str / list *)
+Definition str_edit (e : edit) (d : str) : res str :=
+  match e with
+  | ESet (IInt i) v =>
+      match getitem d i with
+      | Err x => Err x
+      | Ok _ => let p := Z.to_nat (if i <? 0 then i + Z.of_nat (length d) else i) in
+                Ok (firstn p d ++ v ++ skipn (S p) d)
+      end
+  | ESet (ISlice sl) v => setslice d sl v
+  | EIadd t => Ok (d ++ t)
+  | EData d' => Ok d'
+  | EReverse => Ok (rev d)
+  | _ => Ok (edit_method e d)
+  end.
+
+Inductive query :=
+| QLen | QEq (t : str)
+| QCount (sub : str) (a b : option Z) | QFind (sub : str) (a b : option Z) | QRfind (sub : str) (a b : option Z)
+| QIndex (sub : str) (a b : option Z) | QRindex (sub : str) (a b : option Z)
+| QStartswith (p : str) (a b : option Z) | QEndswith (p : str) (a b : option Z)
+| QIsupper | QIslower | QGc | QCountall.
+
+Definition show_zres (r : res Z) : val := match r with Ok z => VI z | Err e => show_exc e end.
+(* the str method behind a query .str wrapper *)
+Definition query_method (q : query) (d : str) : val :=
+  match q with
+  | QCount sub a b => VI (py_count d sub a b)
+  | QFind sub a b => VI (py_find d sub a b)
+  | QRfind sub a b => VI (py_rfind d sub a b)
+  | QIndex sub a b => show_zres (py_index d sub a b)
+  | QRindex sub a b => show_zres (py_rindex d sub a b)
+  | QStartswith p a b => VB (py_startswith d p a b)
+  | QEndswith p a b => VB (py_endswith d p a b)
+  | QIsupper => VB (py_isupper d)
+  | QIslower => VB (py_islower d)
+  | _ => VNone
+  end.
+(* BioSeq.gc, seq.py:336-345: the five letter counts go through self.str.count *)
+Definition seq_gc_counts (s : bioseq) : Z * Z :=
+  let cnt c := str_query unit Z (fun d _ => py_count d [c] None None) s tt in
+  let GC := cnt "G"%byte + cnt "C"%byte in
+  let AT := cnt "A"%byte + cnt "T"%byte + cnt "U"%byte in (GC, GC + AT).
+Definition seq_query (q : query) (s : bioseq) : val :=
+  match q with
+  | QLen => VI (seq_len s)
+  | QEq t => VB (seq_eq_str s t)
+  | QGc => let g := seq_gc_counts s in VL [VI (fst g); VI (snd g)]
+  | QCountall => show_res show_counter (countall [s])          (* BioSeq.countall: BioBasket([self]).countall() *)
+  | _ => str_query unit val (fun d _ => query_method q d) s tt
+  end.
+(* the same question asked of a plain Python str *)
+Definition str_query_run (q : query) (d : str) : val :=
+  match q with
+  | QLen => VI (Z.of_nat (length d))
+  | QEq t => VB (str_eqb d t)
+  | QGc => show_gc d
+  | QCountall => show_counter (counter_of d)
+  | _ => query_method q d
+  end.
+
+(* ---- an object store: BioSeq objects addressed by handle; duplicates are appended ---- *)
+Definition store := list bioseq.
+Inductive dstep :=
+| DDup (k : nat)                   (* copy.copy / copy.deepcopy / seq.copy() / pickle round trip / basket.copy()[k] *)
+| DEdit (k : nat) (e : edit)
+| DQuery (k : nat) (q : query)
+| DEqObj (k j : nat)               (* obj_k == obj_j *)
+| DAllEdit (e : edit)              (* through BioBasket(all objects): seqs[:, ix] = v, seqs.str.m(...), seqs.reverse() *)
+| DCountall.                       (* BioBasket(all objects).countall() *)
+
+(* for seq in basket: edit(seq) -- earlier sequences stay edited when a later one raises *)
+Fixpoint edit_all (e : edit) (b : store) : store * option exc :=
+  match b with
+  | [] => ([], None)
+  | s :: r => match seq_edit e s with
+              | Err x => (s :: r, Some x)
+              | Ok s' => let p := edit_all e r in (s' :: fst p, snd p)
+              end
+  end.
+Definition dstep_run (st : store) (h : dstep) : store * val :=
+  match h with
+  | DDup k => match nth_error st k with
+              | Some s => (st ++ [s], VNone)
+              | None => (st, show_exc IndexError)
+              end
+  | DEdit k e => match nth_error st k with
+                 | None => (st, show_exc IndexError)
+                 | Some s => match seq_edit e s with
+                             | Ok s' => (set_nth st k s', VNone)
+                             | Err x => (st, show_exc x)
+                             end
+                 end
+  | DQuery k q => match nth_error st k with
+                  | None => (st, show_exc IndexError)
+                  | Some s => (st, seq_query q s)
+                  end
+  | DEqObj k j => match nth_error st k, nth_error st j with
+                  | Some s, Some t => (st, VB (seq_eq_seq s t))
+                  | _, _ => (st, show_exc IndexError)
+                  end
+  | DAllEdit e => let p := edit_all e st in (fst p, match snd p with None => VNone | Some x => show_exc x end)
+  | DCountall => (st, show_res show_counter (countall st))
+  end.
+Fixpoint store_run (st : store) (hs : list dstep) : list val :=
+  match hs with
+  | [] => []
+  | h :: r => let p := dstep_run st h in VL [snd p; show_basket (fst p)] :: store_run (fst p) r
+  end.
+Definition store_final (st : store) (hs : list dstep) : store := fold_left (fun s h => fst (dstep_run s h)) hs st.
+
+(* the same history on a plain list of Python strs *)
+Fixpoint str_edit_all (e : edit) (ds : list str) : list str * option exc :=
+  match ds with
+  | [] => ([], None)
+  | d :: r => match str_edit e d with
+              | Err x => (d :: r, Some x)
+              | Ok d' => let p := str_edit_all e r in (d' :: fst p, snd p)
+              end
+  end.
+Definition strs_step (ds : list str) (h : dstep) : list str :=
+  match h with
+  | DDup k => match nth_error ds k with Some d => ds ++ [d] | None => ds end
+  | DEdit k e => match nth_error ds k with
+                 | Some d => match str_edit e d with Ok d' => set_nth ds k d' | Err _ => ds end
+                 | None => ds
+                 end
+  | DAllEdit e => fst (str_edit_all e ds)
+  | _ => ds
+  end.
+Definition ids_step (ids : list str) (h : dstep) : list str :=
+  match h with
+  | DDup k => match nth_error ids k with Some i => ids ++ [i] | None => ids end
+  | _ => ids
+  end.
+(* does step h (possibly) change the object with handle j? *)
+Definition edits (h : dstep) (j : nat) : bool :=
+  match h with DEdit k _ => Nat.eqb k j | DAllEdit _ => true | _ => false end.
+
+Definition edit_wf (e : edit) : bool :=
+  match e with
+  | ESet _ v | EIadd v | EData v => all_ascii v
+  | ETrans m => forallb (fun p => is_ascii (fst p) && is_ascii (snd p)) m
+  | EReplace a b _ => all_ascii a && all_ascii b
+  | ECenter _ f | ELjust _ f | ERjust _ f => is_ascii (fill_of f)
+  | EStrip cs | ELstrip cs | ERstrip cs => opt_okstr cs
+  | _ => true
+  end.
+(* edits that exist at basket level: seqs[:, ix] = v, seqs.str.<transforming method>, seqs.reverse() *)
+Definition edit_basket_ok (e : edit) : bool := match e with EIadd _ | EData _ => false | _ => true end.
+Definition query_wf (q : query) : bool :=
+  match q with
+  | QEq t | QCount t _ _ | QFind t _ _ | QRfind t _ _ | QIndex t _ _ | QRindex t _ _
+  | QStartswith t _ _ | QEndswith t _ _ => all_ascii t
+  | _ => true
+  end.
+Definition dstep_wf (h : dstep) : bool :=
+  match h with
+  | DEdit _ e => edit_wf e
+  | DAllEdit e => edit_wf e && edit_basket_ok e
+  | DQuery _ q => query_wf q
+  | _ => true
+  end.
+
+(* ---- seq['type']: FeatureList.get (sugar/core/fts.py:632-647) resolves the name, then the residues of that
+   feature's location are selected (seq.py:451-460, _slice_locs with one forward location) ---- *)
+Definition lower_eq (a b : str) : bool := str_eqb (py_lower a) (py_lower b).
+Fixpoint ft_get (fts : list (option str * (Z * Z))) (name : str) : option (Z * Z) :=
+  match fts with
+  | [] => None
+  | (None, _) :: r => ft_get r name                         (* if ft.type is None: continue *)
+  | (Some t, loc) :: r => if lower_eq t name then Some loc else ft_get r name
+  end.
+Definition seq_getitem_type (gap : option str) (s : bioseq) (fts : list (option str * (Z * Z))) (name : str) : res bioseq :=
+  match ft_get fts name with
+  | None => Err ValueError                                  (* Feature of type ... not found *)
+  | Some (a, b) => match seq_getitem gap s (ISlice (mkslice (Some a) (Some b) None)) with
+                   | Ok r => Ok (new_seq (data r) (sid s))  (* BioSeq(''.join(sub_seqs), meta=self.meta.copy()) *)
+                   | Err e => Err e
+                   end
+  end.
+Definition ft_wf (f : option str * (Z * Z)) : bool :=
+  (match fst f with None => true | Some t => all_ascii t end) && (0 <=? fst (snd f)) && (fst (snd f) <? snd (snd f)).
+
 (* ---- harness ---- *)
 Inductive op :=
 | OLen (s : str)
@@ -381,7 +732,11 @@ Inductive op :=
 | OEqVal (s : str) (o : val)
 | BEqVal (b : list str) (o : val) (os : list val)
 | OHist (s : str) (hs : list hstep)
-| BHist (b : list str) (x : str) (hs : list bstep).
+| BHist (b : list str) (x : str) (hs : list bstep)
+| OStore (ss : list str) (hs : list dstep)
+| OFt (s : str) (gap : option str) (fts : list (option str * (Z * Z))) (name : str)
+| BFt (b : list str) (gap : option str) (fts : list (option str * (Z * Z))) (name : str)
+| OStrBox (d t : str) (bounds : list (option Z)).
 
 Definition ix_contig (ix : index) : bool := match ix with IInt _ => true | ISlice s => contiguous s end.
 Definition step_contig (o : option Z) : bool := match o with None => true | Some k => k =? 1 end.
@@ -416,6 +771,10 @@ Definition wf_C04 (o : op) : bool :=
   | BEqVal b o os => forallb all_ascii b && val_ascii o && forallb val_ascii os
   | OHist s hs => all_ascii s && forallb hstep_wf hs
   | BHist b x hs => forallb all_ascii b && all_ascii x && forallb bstep_wf hs
+  | OStore ss hs => forallb all_ascii ss && forallb dstep_wf hs
+  | OFt s gap fts name => all_ascii s && opt_ascii gap && forallb ft_wf fts && all_ascii name
+  | BFt b gap fts name => forallb all_ascii b && opt_ascii gap && forallb ft_wf fts && all_ascii name
+  | OStrBox d t _ => all_ascii d && all_ascii t
   end.
 
 Definition idx_id (k : nat) : str := "s"%byte :: dec_of_nat k.
@@ -425,6 +784,10 @@ Definition mk_basket (l : list str) : basket :=
 Definition mk (raw : bool) (s : str) : bioseq := if raw then mkseq s (bs "x"%bs) else new_seq s (bs "x"%bs).
 Definition slices_of (a : option Z) (stops steps : list (option Z)) : list (list pyslice) :=
   map (fun b => map (fun c => mkslice a b c) steps) stops.
+
+(* the harness builds [BioSeq(d, id='o<k>') ...] *)
+Definition mk_store (l : list str) : store :=
+  map (fun p => new_seq (snd p) ("o"%byte :: dec_of_nat (fst p))) (combine (seq 0 (length l)) l).
 
 Definition run_op (o : op) : val :=
   match o with
@@ -457,6 +820,15 @@ Definition run_op (o : op) : val :=
           VB (basket_eq_list bb os)]
   | OHist s hs => VL (hist_run (mk false s) hs)
   | BHist b x hs => VL (bhist_run (mk_basket b, mk false x) hs)
+  | OStore ss hs => VL (store_run (mk_store ss) hs)
+  | OFt s gap fts name => show_res show_seq (seq_getitem_type gap (mk false s) fts name)
+  | BFt b gap fts name => show_res show_basket (mapM (fun x => seq_getitem_type gap x fts name) (mk_basket b))
+  | OStrBox d t bounds =>
+      (* seq.data = d; every (start, end) pair for the seven search methods of seq.str *)
+      let s := mkseq d (bs "x"%bs) in
+      VL (map (fun mk : str -> option Z -> option Z -> query =>
+                 VL (map (fun a => VL (map (fun b => seq_query (mk t a b) s) bounds)) bounds))
+              [QCount; QEndswith; QFind; QIndex; QRfind; QRindex; QStartswith])
   end.
 
 Definition run_C04 (o : op) : val := VL [VB (wf_C04 o); run_op o].
